@@ -24,6 +24,15 @@ JOBS = int(os.environ.get("VERIF_JOBS", "12"))
 PRIM = {"u8", "u16", "u32", "u64", "u128", "usize", "i8", "i16", "i32", "i64", "i128", "isize", "bool", "char"}
 
 
+def out_dir(kind):
+    """evidence/ and replays/ live in /verif; VERIF_OUT=<dir> redirects both (used when a check is run
+    against a scratch tree via VERIF_REPO, so that the committed evidence is not overwritten)."""
+    base = Path(os.environ["VERIF_OUT"]) if os.environ.get("VERIF_OUT") else VERIF
+    d = base / kind
+    d.mkdir(parents=True, exist_ok=True)
+    return d
+
+
 class Undecided(Exception):
     """The machinery could not decide (lost anchor, build failure, timeout...). Never an alarm."""
 
@@ -47,6 +56,7 @@ class Ob:
         self.contract = None  # path for proof_for_contract
         self.stub_verified = []
         self.timeout = None
+        self.replay = True
         self.fn_name = None
         self.args = []  # (name, type)
         self.line = 0
@@ -134,6 +144,8 @@ def parse_unit(unit):
                 ob.stub_verified += v.split()
             elif k == "timeout":
                 ob.timeout = int(v)
+            elif k == "replay":
+                ob.replay = (v != "none")
             else:
                 raise Undecided(f"{path}:{i+1}: unknown directive {k}")
             i += 1
@@ -376,7 +388,7 @@ def repo_fingerprint():
     files = sorted(list((REPO / "src").rglob("*.rs")) + [REPO / "Cargo.toml", REPO / "Cargo.lock"])
     for f in files:
         h.update(str(f.relative_to(REPO)).encode())
-        h.update(f.read_bytes())
+        h.update(f.read_bytes() if f.exists() else b"<absent>")
     rc, so, _, _ = sh(["git", "-C", str(REPO), "rev-parse", "--short", "HEAD"])
     rc2, so2, _, _ = sh(["git", "-C", str(REPO), "status", "--porcelain", "--untracked-files=no"])
     return {"head": so.strip(), "dirty": bool(so2.strip()), "src_sha256": h.hexdigest()[:16], "files": len(files)}
